@@ -128,3 +128,67 @@ def sharp_terms(rules):
             if y[0].islower():
                 t.add(y)
     return t | {"a", "b"}
+
+
+# ---------------------------------------------------------------------------
+# Automata / transducers: BFS over builder operations add_I / add_F / add_arc
+
+
+def machine_ops(nstates, labels):
+    ops = [("I", q) for q in range(nstates)] + [("F", q) for q in range(nstates)]
+    ops += [("A", i, l, j) for i in range(nstates) for l in labels for j in range(nstates)]
+    return ops
+
+
+def bfs_machines(nstates, labels, max_arcs, max_mult=2, symmetry=True):
+    """States = sorted multiset of builder ops (add_I / add_F at most once per state,
+    arcs with multiplicity <= max_mult), canonical up to renaming of the states.
+    Returns (list of canonical op-tuples, transitions)."""
+    ops = machine_ops(nstates, labels)
+    perms = list(itertools.permutations(range(nstates))) if symmetry else [tuple(range(nstates))]
+
+    def key(op):
+        return (0 if op[0] == "I" else 2 if op[0] == "F" else 1,) + tuple(repr(x) for x in op[1:])
+
+    def canon(st):
+        best = None
+        for p in perms:
+            img = tuple(
+                sorted(
+                    ((o[0], p[o[1]]) if o[0] != "A" else ("A", p[o[1]], o[2], p[o[3]]) for o in st),
+                    key=key,
+                )
+            )
+            kk = tuple(key(o) for o in img)
+            if best is None or kk < best[0]:
+                best = (kk, img)
+        return best[1]
+
+    seen = {()}
+    order = [()]
+    frontier = deque([()])
+    transitions = 0
+    while frontier:
+        st = frontier.popleft()
+        narcs = sum(1 for o in st if o[0] == "A")
+        for op in ops:
+            if op[0] == "A":
+                if narcs >= max_arcs or st.count(op) >= max_mult:
+                    continue
+            elif op in st:
+                continue
+            transitions += 1
+            nxt = canon(st + (op,))
+            if nxt not in seen:
+                seen.add(nxt)
+                order.append(nxt)
+                frontier.append(nxt)
+    return order, transitions
+
+
+def all_graphs(n):
+    """Every directed graph on nodes 0..n-1 (self loops allowed): BFS over G[i,j]=w."""
+    pairs = [(i, j) for i in range(n) for j in range(n)]
+    for k in range(len(pairs) + 1):
+        for es in itertools.combinations(pairs, k):
+            yield es
